@@ -50,25 +50,35 @@ int            W_maxwaits;
 static int     dummy_q[W_MAXQ];
 static int     W_queue_changed;
 
-/* reference computation on the NORMALISED deadline */
-unsigned long W_remaining_ms(void)
+unsigned long  W_last_rem_ms;
+int            W_rem_calls;
+static ares_timeval_t W_last_now;
+static int     W_deadline_carry; /* first clock read's usec + (timeout_ms % 1000) * 1000 reached a full second */
+
+/* Contract stub of ares_timeval_remaining() (src/lib/ares_timeout.c; the real one is checked against this contract in
+ * job c11_timeval_remaining): pre  - both time values are normalised (usec < 1000000), `now` is a fresh clock read,
+ * `tout` is the deadline; post - any remaining time (the harness does not need its value to relate to the clock). */
+void ares_timeval_remaining(ares_timeval_t *remaining, const ares_timeval_t *now, const ares_timeval_t *tout)
 {
-  ares_int64_t s;
-  unsigned int u;
-  if (W_now_sec > W_dl_sec || (W_now_sec == W_dl_sec && W_now_usec >= W_dl_usec))
-    return 0;
-  s = W_dl_sec - W_now_sec;
-  if (W_dl_usec >= W_now_usec) {
-    u = W_dl_usec - W_now_usec;
-  } else {
-    u = W_dl_usec + 1000000 - W_now_usec;
-    s--;
-  }
-  return (unsigned long)s * 1000 + u / 1000;
+  ares_int64_t rs = (ares_int64_t)vp_range(0, 2200000);
+  unsigned int ru = (unsigned int)vp_range(0, 999999);
+  VP_ASSERT(W_timeout_ms >= 0 && W_tvnow_calls >= 2, "remaining time is computed only for a timed wait, after the deadline was fixed");
+  VP_ASSERT(now->sec == W_last_now.sec && now->usec == W_last_now.usec && W_mx_depth == 1,
+            "the remaining time is computed from a fresh clock read, under the mutex");
+  VP_ASSERT(tout->sec * 1000000 + (ares_int64_t)tout->usec == W_dl_sec * 1000000 + (ares_int64_t)W_dl_usec,
+            "the deadline is the function's first clock read plus timeout_ms");
+  VP_ASSERT(tout->usec < 1000000,
+            "FINDING waitempty_early_timeout: the deadline handed to ares_timeval_remaining() is not normalised "
+            "(usec >= 1000000): as soon as the clock's second exceeds tout.sec it is called expired although up to "
+            "999 ms remain, so ARES_ETIMEOUT is returned early");
+  remaining->sec  = rs;
+  remaining->usec = ru;
+  W_last_rem_ms   = (unsigned long)((rs * 1000) + (ru / 1000));
+  W_rem_calls++;
 }
 void W_advance(size_t max_us)
 {
-  size_t ds = vp_range(0, 2200000), du = vp_range(0, 999999); /* timeout_ms <= INT_MAX => at most ~2147484 s per step */
+  size_t ds = vp_range(0, (size_t)1 << 22), du = vp_range(0, 999999);
   VP_ASSUME(ds * 1000000 + du <= max_us);
   W_last_advance_us  = (ares_int64_t)(ds * 1000000 + du);
   W_now_sec         += (ares_int64_t)ds;
@@ -80,16 +90,24 @@ void W_advance(size_t max_us)
 }
 void ares_tvnow(ares_timeval_t *now)
 {
-  W_advance(3000000); /* code between two clock reads takes any time up to 3 s */
+  W_advance((size_t)1 << 41); /* monotonic; any amount of time passes between two clock reads */
   now->sec  = W_now_sec;
   now->usec = W_now_usec;
+  W_last_now = *now;
   if (W_tvnow_calls++ == 0 && W_timeout_ms >= 0) { /* the deadline: the function's first clock read + timeout_ms */
     W_dl_sec  = W_now_sec + W_timeout_ms / 1000;
     W_dl_usec = W_now_usec + (unsigned int)(W_timeout_ms % 1000) * 1000;
     if (W_dl_usec >= 1000000) {
       W_dl_usec -= 1000000;
       W_dl_sec++;
+      W_deadline_carry = 1;
     }
+#ifdef KF_waitempty_early_timeout
+    VP_ASSUME(!W_deadline_carry);
+#endif
+#ifdef KFONLY_waitempty_early_timeout
+    VP_ASSUME(W_deadline_carry);
+#endif
   }
 }
 
@@ -148,9 +166,8 @@ void harness(void)
     if (W_timedwait_timeouts == 0) {
       /* decided by the clock alone: the deadline (the function's first clock read + timeout_ms) must have been reached
        * to the millisecond */
-      VP_ASSERT(W_remaining_ms() == 0,
-                "FINDING waitempty_early_timeout: ARES_ETIMEOUT is reported although more than a millisecond of the "
-                "caller's timeout remains (tout.usec is not normalised, so 'tout->sec < now->sec' calls it expired)");
+      VP_ASSERT(W_rem_calls > 0 && W_last_rem_ms == 0,
+                "ARES_ETIMEOUT without a timed-out wait only when less than a millisecond remains until the deadline");
       VP_WITNESS("timeout decided by the clock");
     } else {
       VP_WITNESS("timeout reported by the timed wait");
